@@ -202,7 +202,8 @@ class Run:
         return res
 
     def _must_pass(self, fn, pass_blocks):
-        reach = fn.reachable(removed_blocks=set(pass_blocks))
+        from .cfgutil import status_fail_edges
+        reach = fn.reachable(removed_blocks=set(pass_blocks), removed_edges=status_fail_edges(fn))
         if fn.entry in pass_blocks:
             return True
         if ret_kind(fn.ret.get("t")) is None:
